@@ -131,7 +131,7 @@ func runRoundTrip(o opts, out *Output, sig int) {
 				// sizes far outside what the generator draws: 70 KB names, 2 MB values, 20001 children of one item
 				data, big = extremeBatch(sig), true
 				stats["extreme_batches"]++
-			} else if c%40 == 5 && b == 1 {
+			} else if c%40 == 5 && c < 400 && b == 1 {
 				// tens of thousands of attribute-bearing items (inside the id width) in a batch that also needs a schema update
 				switch sig {
 				case 0:
